@@ -188,6 +188,11 @@ def gen_history(rng, mode, nslots):
     L = rng.randint(1, 12)
     st = State(nslots if mode == "ddp" else 0)
     cmds = []
+    if mode == "ddp":      # all slots start empty there: give two of them a value first (not counted in L)
+        for d in rng.sample(range(nslots), 2):
+            cmds.append(("lit", d, rand_text(rng, 1, 6)))
+            st.apply(cmds[-1])
+        L += 2
     table = OPS_DIRECT if mode == "direct" else OPS_DDP
     tries = 0
     while len(cmds) < L and tries < 200:
@@ -418,7 +423,7 @@ def judge_direct(cmds, block):
     invk = {}
     for l in inv:
         p = l.split(" ", 3)
-        invk.setdefault(int(p[1]), []).append(p[3])
+        invk.setdefault(int(p[1]), []).append("%s (slot %s)" % (p[3], p[2]))
     if other:
         findings.append(({"part": "direct", "op": "(protocol)", "history": FRESH, "symptom": "driver said: " + other[0][:60]}, "\n".join(other[:5])))
         return findings, steps, tainted_steps
@@ -490,7 +495,8 @@ def judge_direct(cmds, block):
         if bad:
             sym = "wrong result"
             if any(x.startswith("invariant") for x in bad):
-                sym = "invariant: " + [x for x in bad if x.startswith("invariant")][0].split(" ", 2)[2].split(":")[0]
+                sym = [x for x in bad if x.startswith("invariant")][0].split(" (slot")[0].split(":", 2)
+                sym = "%s:%s" % (sym[0], sym[1])
             sig = {"part": "direct", "op": op, "history": hist, "symptom": sym}
             if op == "repl" and not tainted:
                 sig["widths"] = "%d->%d" % (width(before[cmd[1]][cmd[2] - 1]), width(chr(cmd[3])))
@@ -626,11 +632,14 @@ def parse_ddp_output(out):
 
 
 def risky(cmds, nslots):
-    """does the history apply equality / concatenation / iteration to a value whose buffer was shrunk in place?
-    (used to keep those out of the sanitizer-linked programs, where the first report ends the process)"""
+    """does the history apply equality / concatenation / iteration to a value whose buffer was shrunk in place, or compare
+    two empty texts (memcmp on NULL pointers, reported by UBSan)? Used to keep those out of the sanitizer-linked programs,
+    where the first report ends the process and hides every later observation."""
     st = State(nslots)
     for c in cmds:
         if c[0] in ("eq", "cat", "catsc", "catcs", "iter") and any(st.taint.get(s) for s in reads(c)):
+            return True
+        if c[0] == "eq" and st.vals[c[1]] == "" and st.vals[c[2]] == "":
             return True
         st.apply(c)
     return False
